@@ -32,10 +32,21 @@ let item_of (s : string) : ritem =
 
 let schema_records = ref 0
 let schema_fallbacks = ref 0
+let schema_options = ref 0
+let schema_option_fallbacks = ref 0
 
 let mk_opt ?(clone=false) udp rc ver dok opts : op =
   let one s = match split '.' s with
-    | [code; data] -> let d = bytes_of_hex data in ((ni code, n_of_int (List.length d)), d)
+    | [code; data] ->
+        let d = bytes_of_hex data in
+        let raw = ((ni code, n_of_int (List.length d)), d) in
+        (* the harness pushes the library's typed option when the first data octet is even
+           (or there is none): the model then goes through C05's row for the code *)
+        let typed = (not clone) && (match d with [] -> true | b :: _ -> int_of_n b land 1 = 0) in
+        if typed then begin
+          let (o, via) = c02_typed_option raw in
+          if via then incr schema_options else incr schema_option_fallbacks; o
+        end else raw
     | _ -> failwith "bad option" in
   OpOpt ({ oh_udp = ni udp; oh_rc = (if rc = "-" then None else Some (ni rc)); oh_ver = ni ver;
            oh_flags = (if clone then ni dok else if dok = "1" then n_of_int 32768 else n_of_int 0); oh_hdr = not clone },
@@ -106,6 +117,11 @@ let handle = function
            Printf.sprintf "%s C=%d,%d,%d,%d N=%d M=%s V=%s" r
              (int_of_n st.b_qd) (int_of_n st.b_an) (int_of_n st.b_ns) (int_of_n st.b_ar)
              (List.length m) (show_msg m) (if c02_reread st a then "ok" else "bad"))
+  (* cnt <n>: n root questions into a Vec without compressor, by count arithmetic
+     (SchemaModel.c02_count, proved equal to the step model in ProofsCount.v) *)
+  | ["cnt"; n] ->
+      let ((count, len), over) = c02_count (ni n) in
+      Printf.sprintf "CNT C=%d N=%d R=%s" (int_of_n count) (int_of_n len) (if over then "count" else "ok")
   | _ -> failwith "bad case line"
-let () = at_exit (fun () -> Printf.eprintf "c02-model: schema_records=%d schema_fallbacks=%d\n" !schema_records !schema_fallbacks)
+let () = at_exit (fun () -> Printf.eprintf "c02-model: schema_records=%d schema_fallbacks=%d schema_options=%d schema_option_fallbacks=%d\n" !schema_records !schema_fallbacks !schema_options !schema_option_fallbacks)
 let () = main handle
